@@ -242,6 +242,12 @@ pub fn run(ctx: &Arc<Ctx>) {
         let n = inputs.len();
         run_cases(ctx, "E3/C06-altmode", false, (0..n * 6).into_par_iter().map(|i| (i % 6, i / 6)), |&(w, i)| eval_alt_mode(&dc, w, &inputs[i]), |&(w, i)| (format!("altmode|{}", ALT_MODES[w]), json!({"mode": ALT_MODES[w], "bytes": hex::encode(&inputs[i])})));
     }
+    // ---- long batches
+    {
+        let lens: Vec<usize> = if ctx.quick() { vec![0, 1, 2, 3, 4, 7, 8, 9, 255, 256, 257, 1023, 1024, 1025, 4095, 4096, 4097] } else { vec![0, 1, 2, 3, 4, 7, 8, 9, 15, 16, 17, 255, 256, 257, 1023, 1024, 1025, 4095, 4096, 4097, 8191, 8192, 8193, 16385, 65537] };
+        run_cases(ctx, "E3/C06-batch", false, (0..lens.len() * 2).into_par_iter().map(|i| (i % 2, lens[i / 2])), |&(api, l)| eval_long_batch(&dc, api, l), |&(api, l)| (format!("batch|{}", BATCH_APIS[api]), json!({"long_batch": {"api": BATCH_APIS[api], "len": l}})));
+        ctx.report.rule(format!("E3/C06-batch[ark]: normalize_batch and batch_convert_to_mul_base on batches of {} lengths (0..4, powers of two and neighbours up to {}), bases (i+1)G with mixed Z; every output compared with the reference multiple", lens.len(), lens.iter().max().unwrap()));
+    }
     // ---- from_random_bytes
     let mut strings: Vec<Vec<u8>> = vec![];
     for len in 0..=64usize {
@@ -320,9 +326,45 @@ pub fn run(ctx: &Arc<Ctx>) {
     ctx.report.assume("C06: sampler scripts longer than the bound continue with a fixed splitmix64 counter stream (explicit horizon); every environment has an explicit horizon of 2^20 draws: reaching it under the well-spread continuation is a violation (unbounded rejection loop), under a monotone counter generator it is recorded as a class (no value returned, nothing to check)");
 }
 
+/// LONG batches through the batch conversions: batch length is a control parameter of its own
+/// (shared batch inversions, chunking), so powers of two and their neighbours are walked. Bases
+/// (i+1)G accumulated by addition (Z != 1), every third one normalised first (Z = 1); every output
+/// must be the reference point (i+1)G up to the coset.
+pub const BATCH_APIS: [&str; 2] = ["Element::normalize_batch", "Element::batch_convert_to_mul_base"];
+pub fn eval_long_batch(dc: &Decaf, api: usize, l: usize) -> Outcome {
+    use ark_ec::{CurveGroup, ScalarMul};
+    let g = Element::GENERATOR;
+    let mut bases: Vec<Element> = Vec::with_capacity(l);
+    let mut acc = g;
+    for i in 0..l {
+        bases.push(if i % 3 == 2 { Element::from(acc.into_affine()) } else { acc });
+        acc += g;
+    }
+    let outs: Vec<Affine> = if api == 0 { Element::normalize_batch(&bases) } else { Element::batch_convert_to_mul_base(&bases) };
+    let class = format!("{}/len{l}", BATCH_APIS[api]);
+    let case = json!({"long_batch": {"api": BATCH_APIS[api], "len": l}});
+    if outs.len() != l {
+        return Outcome::bad(class, Viol { key: format!("C06|{}|length", BATCH_APIS[api]), engine: "E3/C06-batch".into(), case, expected: format!("{l} outputs"), got: format!("{} outputs", outs.len()) });
+    }
+    let gp = dc.generator();
+    let mut rp = gp.clone();
+    for (i, a) in outs.iter().enumerate() {
+        let c = af_coords(a);
+        let p = Pt { x: BigUint::from_bytes_le(&c[0]), y: BigUint::from_bytes_le(&c[1]) };
+        if !dc.c.on_curve(&p) || !dc.c.same_class(&p, &rp) {
+            return Outcome::bad(class, Viol { key: format!("C06|{}|invalid output", BATCH_APIS[api]), engine: "E3/C06-batch".into(), case, expected: format!("output {i} = ({}+1)*G, a valid element", i), got: format!("({}, {}){}", p.x, p.y, if dc.c.on_curve(&p) { "" } else { ": not on the curve" }) });
+        }
+        rp = dc.c.add(&rp, &gp);
+    }
+    Outcome::ok(class)
+}
+
 pub fn replay(case: &Value) -> (bool, Value) {
     let dc = Decaf::new();
-    let o = if case["mode"].is_string() {
+    let o = if case["long_batch"].is_object() {
+        let api = BATCH_APIS.iter().position(|m| Some(*m) == case["long_batch"]["api"].as_str()).unwrap_or(0);
+        eval_long_batch(&dc, api, case["long_batch"]["len"].as_u64().unwrap_or(4) as usize)
+    } else if case["mode"].is_string() {
         let w = ALT_MODES.iter().position(|m| Some(*m) == case["mode"].as_str()).unwrap_or(0);
         eval_alt_mode(&dc, w, &hex::decode(case["bytes"].as_str().unwrap_or("")).unwrap_or_default())
     } else if case["bytes"].is_string() {
